@@ -10,7 +10,9 @@ Decides (structural clauses of gsd-parser's user-parameter packer):
  c  check before write / nothing written on error: the type writer has no store on any path returning
     Err; the constrained writer calls the type writer only after the declared range/enumeration check
     succeeded; set_prm / set_prm_from_text resolve the name (and text) before any write; every default
-    value is written unconditionally when the block is built.
+    value is written unconditionally when the block is built;
+ d  block sizing: update_prm_data_len(offset, size) leaves at least offset + size bytes in the block on every path (already large
+    enough / resize(offset + size) / exactly (offset + size) - len pushes).
 Known finding (recorded, not repaired): BitArea stores `value << first` without reading the old byte,
 clobbering neighbouring fields of the same byte – the repair changes the pinned regress__mock-PRM
 snapshot, so the unedited suite would fail.
@@ -211,6 +213,7 @@ def check(ctx):
                    "the enumeration constraint is tested with `%s`, which is not an order-independent membership test of the listed values "
                    "(binary_search needs a sorted list; GSD files list values in any order)" % short, f.loc(b))
     ctx.anchor("membership tests of enumeration constraints", nm, 2)
+    check_sizing(ctx, P)
     for name in ("PrmBuilder::set_prm", "PrmBuilder::set_prm_from_text"):
         f = ctx.need_fn(CR, name)
         if f is None:
@@ -224,6 +227,68 @@ def check(ctx):
             ctx.ob("c.atomic", "resolve-before-write|" + name.split("::")[-1], ok and ok2, "the block is written before the parameter name / text was resolved successfully: " + w_, f.loc(b))
         direct = [x for x in buffer_writes(f, gf.tb, lambda t: "prm" in (path_str(t) or ""))]
         ctx.ob("c.atomic", "no-direct-write|" + name.split("::")[-1], not direct, "%s writes the block directly (must go through the constrained writer)" % name, f.loc(0))
+
+
+def check_sizing(ctx, P):
+    """d.sizing: the block sizing helper leaves len(prm) >= offset + size on every path - a field that starts inside the bytes already
+    present but ends beyond them must still grow the block (otherwise the writer that follows panics or truncates)."""
+    from analysis.terms import flatten
+    f = ctx.need_fn(CR, "PrmBuilder::update_prm_data_len")
+    if f is None:
+        return
+    tb = TermBuilder(f, P)
+    args = [f.locals[i].get("name") for i in range(2, f.argc + 1)]
+
+    def is_need(t):
+        parts = sorted(path_str(strip_casts(x)) or show(x) for x in flatten(simplify(strip_casts(t)), "Add"))
+        return len(args) == 2 and parts == sorted(args)
+
+    def is_len(t):
+        t = strip_casts(strip_refs(t))
+        return t[0] in ("len", "call") and show(t).startswith("len(") and "self.prm" in show(t)
+
+    def is_missing(t):
+        t = simplify(strip_casts(t))
+        return t[0] == "bin" and t[1] == "Sub" and is_need(t[2]) and is_len(t[3])
+    marks, other, resize_ok, loop_ok = {}, [], True, False
+    for b, c in call_sites(f):
+        cal = c.get("callee") or ""
+        a0 = show(tb.joperand(c["args"][0])) if c["args"] else ""
+        if "self.prm" not in a0 and not cal.endswith("into_iter"):
+            continue
+        short = cal.split("::")[-1]
+        if short == "resize":
+            marks[(b, None)] = "rs"
+            resize_ok = resize_ok and is_need(tb.joperand(c["args"][1]))
+        elif short == "push":
+            marks[(b, None)] = "push"
+        elif short == "into_iter":
+            r = tb.joperand(c["args"][0])
+            if r[0] == "agg" and str(r[1]).endswith("Range") and len(r[3]) == 2 and r[3][0] == ("const", 0) and is_missing(r[3][1]):
+                loop_ok = True
+        elif short not in ("len", "is_empty", "capacity", "reserve", "deref", "as_slice"):
+            other.append(short)
+    ctx.ob("d.sizing", "only-growing-mutations", not other, "update_prm_data_len changes the block by %s (only push / resize are understood)" % other, f.loc(0))
+    g = GuardAnalysis(f, P, marks=marks, iter_marks=("push",))
+    one_push = bool(f.back_edges()) and all(g.count_of(fs, "push") == {1} for src, head in f.back_edges() for fs in g.at(src))
+    enough = M.key_cmp("lt", is_len, is_need)
+    bad = []
+    n = 0
+    for rb in f.return_blocks:
+        for fs in g.at(rb):
+            n += 1
+            v = [vs for k, vs in fs.items() if enough(k)]
+            if v and v[0] == ("in", frozenset([False])):
+                continue  # already large enough
+            if 0 not in g.count_of(fs, "rs") and resize_ok:
+                continue  # resized to offset + size
+            done = any(k[0] == "discr" and strip_refs(k[1])[0] == "call" and strip_refs(k[1])[1].endswith("::next") and vs == ("in", frozenset(["None"])) for k, vs in fs.items())
+            if done and loop_ok and one_push:
+                continue  # pushed exactly (offset + size) - len bytes
+            bad.append(M.fmt_facts(fs)[:200])
+    ctx.ob("d.sizing", "block-covers-field", n >= 1 and not bad,
+           "update_prm_data_len(offset, size) can return with fewer than offset + size bytes in the block (a field starting inside the existing "
+           "bytes but ending beyond them is not covered): " + "; ".join(bad[:2]), f.loc(0))
 
 
 if __name__ == "__main__":
